@@ -180,10 +180,20 @@ def main():
                     K = assemble.stiffness(kvs, geo)
                     res['K'] = save(K.toarray())
                 if case.get('fast'):
+                    import contextlib
+                    import io
                     tol = case['fast']
-                    res['Mf'] = save(assemble.mass_fast(kvs, geo, tol=tol, verbose=0).toarray())
+                    buf = io.StringIO()       # fastasm.cc logs through sys.stdout.write
+                    with contextlib.redirect_stdout(buf):
+                        Mf = assemble.mass_fast(kvs, geo, tol=tol, verbose=1)
+                    res['Mf'] = save(Mf.toarray())
+                    res['Mf_log'] = buf.getvalue()[-400:]
                     if case.get('stiffness'):
-                        res['Kf'] = save(assemble.stiffness_fast(kvs, geo, tol=tol, verbose=0).toarray())
+                        buf = io.StringIO()
+                        with contextlib.redirect_stdout(buf):
+                            Kf = assemble.stiffness_fast(kvs, geo, tol=tol, verbose=1)
+                        res['Kf'] = save(Kf.toarray())
+                        res['Kf_log'] = buf.getvalue()[-400:]
             elif k == 'detinv':
                 X = np.array([[float.fromhex(h) for h in row] for row in case['X']]).reshape(case['shape'])
                 X = np.ascontiguousarray(X)
